@@ -89,8 +89,7 @@ theorem LblInv.append {mod lm lm1 lm2 ls1 ls2} (h1 : LblInv mod lm lm1 ls1) (h2 
     subst hab
     obtain ⟨id1, c1, hi1, e1, _, u1⟩ := h1.range a ha
     obtain ⟨id2, c2, hi2, e2, l2, _⟩ := h2.range a hb
-    obtain ⟨rfl, rfl⟩ := labelName_inj mod id1 id2 c1 c2 (labelIdents_noDigits _ hi1)
-      (labelIdents_noDigits _ hi2) (e1.symm.trans e2)
+    obtain ⟨rfl, rfl⟩ := labelName_inj mod id1 id2 c1 c2 (e1.symm.trans e2)
     omega
   · intro l hl
     rcases List.mem_append.mp hl with hl | hl
